@@ -111,11 +111,23 @@ theorem exceptToOption_map {ε α β : Type} (g : α → β) (x : Except ε α) 
 
 /-! ### "plain" routines: no `sum_over`/`prod_over` in source expressions, no repetition -/
 
+/-- sequences whose closed forms are written without an iterator (constant, arithmetic, geometric) and whose parameters
+    contain none: the repetition wrappers covered by the refinement theorem -/
+def plainSeqB : Seq → Bool
+  | .constant m => (binders m).isEmpty
+  | .arithmetic i d => (binders i).isEmpty && (binders d).isEmpty
+  | .geometric r => (binders r).isEmpty
+  | _ => false
+
+def plainRepB : Option Repetition → Bool
+  | none => true
+  | some rp => (binders rp.count).isEmpty && plainSeqB rp.seq
+
 mutual
 def plainB : Routine → Bool
   | ⟨_, _, _, lvs, _, ps, rs, _, rep, _, ch, _⟩ =>
     lvs.all (fun kv => (binders kv.2).isEmpty) && ps.all (fun p => (binders p.size).isEmpty) &&
-    rs.all (fun r => (binders r.value).isEmpty) && rep.isNone && plainListB ch
+    rs.all (fun r => (binders r.value).isEmpty) && plainRepB rep && plainListB ch
 def plainListB : List Routine → Bool
   | [] => true
   | c :: cs => plainB c && plainListB cs
@@ -261,13 +273,139 @@ theorem resourceVals_map (A : Alg V) (ρ : Env V) (d : Dict Expr) (rs : List Res
   intro r hr
   simp only [Function.comp, eval_subst_instV A ρ d r.value (hb r hr)]
 
+/-! ### repetition wrappers: the closed forms contain no iterator -/
+
+theorem getSum_binders (cnt x : Expr) (sq : Seq) (hs : plainSeqB sq = true) (hc : binders cnt = []) (hx : binders x = [])
+    (e : Expr) (h : sq.getSum cnt x = .ok e) : binders e = [] := by
+  cases sq with
+  | constant m =>
+    simp only [plainSeqB, List.isEmpty_iff] at hs
+    simp only [Seq.getSum, pure, Except.pure, Except.ok.injEq] at h
+    subst h; simp [binders, hs, hc, hx]
+  | arithmetic i d =>
+    simp only [plainSeqB, Bool.and_eq_true, List.isEmpty_iff] at hs
+    simp only [Seq.getSum, pure, Except.pure, Except.ok.injEq] at h
+    subst h; simp [binders, hs.1, hs.2, hc, hx]
+  | geometric r =>
+    simp only [plainSeqB, List.isEmpty_iff] at hs
+    simp only [Seq.getSum, pure, Except.pure, Except.ok.injEq] at h
+    subst h; simp [binders, hs, hc, hx]
+  | closedForm _ _ _ => simp [plainSeqB] at hs
+  | custom _ _ => simp [plainSeqB] at hs
+
+theorem getProd_binders (cnt x : Expr) (sq : Seq) (hs : plainSeqB sq = true) (hc : binders cnt = []) (hx : binders x = [])
+    (e : Expr) (h : sq.getProd cnt x = .ok e) : binders e = [] := by
+  cases sq with
+  | constant m =>
+    simp only [plainSeqB, List.isEmpty_iff] at hs
+    simp only [Seq.getProd, pure, Except.pure, Except.ok.injEq] at h
+    subst h; simp [binders, hs, hc, hx]
+  | arithmetic i d =>
+    simp only [plainSeqB, Bool.and_eq_true, List.isEmpty_iff] at hs
+    simp only [Seq.getProd, pure, Except.pure, Except.ok.injEq] at h
+    subst h; simp [binders, bindersList, hs.1, hs.2, hc, hx]
+  | geometric r =>
+    simp only [plainSeqB, List.isEmpty_iff] at hs
+    simp only [Seq.getProd, pure, Except.pure, Except.ok.injEq] at h
+    subst h; simp [binders, hs, hc, hx]
+  | closedForm _ _ _ => simp [plainSeqB] at hs
+  | custom _ _ => simp [plainSeqB] at hs
+
+theorem foldlM_except_inv {α β ε : Type} (P : β → Prop) (f : β → α → Except ε β)
+    (hf : ∀ b a b', P b → f b a = .ok b' → P b') :
+    ∀ (l : List α) (b b' : β), P b → l.foldlM f b = .ok b' → P b'
+  | [], b, b', hb, h => by
+    simp only [List.foldlM, pure, Except.pure, Except.ok.injEq] at h
+    subst h; exact hb
+  | a :: l, b, b', hb, h => by
+    simp only [List.foldlM] at h
+    obtain ⟨b1, h1, h2⟩ := Except.bind_ok h
+    exact foldlM_except_inv P f hf l b1 b' (hf b a b1 hb h1) h2
+
+theorem mem_resource_set (acc : List Resource) (z y : Resource) (h : y ∈ Resource.set acc z) : y ∈ acc ∨ y = z := by
+  induction acc with
+  | nil => simp only [Resource.set, List.mem_singleton] at h; exact Or.inr h
+  | cons a as ih =>
+    simp only [Resource.set] at h
+    split at h
+    · simp only [List.mem_cons] at h
+      rcases h with rfl | h
+      · exact Or.inr rfl
+      · exact Or.inl (by simp [h])
+    · simp only [List.mem_cons] at h
+      rcases h with rfl | h
+      · exact Or.inl (by simp)
+      · rcases ih h with h | h
+        · exact Or.inl (by simp [h])
+        · exact Or.inr h
+
+/-- the resources a plain repetition wrapper gets contain no iterator -/
+theorem processRepeatedResources_binders (rp : Repetition) (rs : List Resource) (sigs : List (String × List (String × ResTy)))
+    (hc : binders rp.count = []) (hs : plainSeqB rp.seq = true) (rs' : List Resource)
+    (h : processRepeatedResources rp rs sigs = .ok rs') : ∀ r ∈ rs', binders r.value = [] := by
+  unfold processRepeatedResources at h
+  split at h
+  · rename_i childName childRes
+    obtain ⟨_, _, h⟩ := Except.bind_ok h
+    refine foldlM_except_inv (fun (acc : List Resource) => ∀ r ∈ acc, binders r.value = []) _ ?_ childRes [] rs'
+      (by intro r hr; cases hr) h
+    intro acc nt acc' hacc hstep
+    cases hty : nt.2 with
+    | additive =>
+      simp only [hty] at hstep
+      obtain ⟨e, he, hstep⟩ := Except.bind_ok hstep
+      simp only [pure, Except.pure, Except.ok.injEq] at hstep
+      subst hstep
+      intro r hr
+      rcases mem_resource_set _ _ _ hr with hr | rfl
+      · exact hacc r hr
+      · exact getSum_binders _ _ _ hs hc rfl e he
+    | multiplicative =>
+      simp only [hty] at hstep
+      obtain ⟨e, he, hstep⟩ := Except.bind_ok hstep
+      simp only [pure, Except.pure, Except.ok.injEq] at hstep
+      subst hstep
+      intro r hr
+      rcases mem_resource_set _ _ _ hr with hr | rfl
+      · exact hacc r hr
+      · exact getProd_binders _ _ _ hs hc rfl e he
+    | qubits =>
+      simp only [hty] at hstep
+      split at hstep
+      · simp only [pure, Except.pure, Except.ok.injEq] at hstep
+        subst hstep; exact hacc
+      · simp [throw, throwThe, MonadExceptOf.throw] at hstep
+    | other =>
+      simp only [hty] at hstep
+      simp [throw, throwThe, MonadExceptOf.throw] at hstep
+  · simp [throw, throwThe, MonadExceptOf.throw] at h
+
+/-- the resources that get evaluated (the node's own, or the closed forms of a repetition wrapper) contain no iterator, and
+    the value-level evaluator picks the same ones -/
+theorem repStep_resources (A : Alg V) (ρ : Env V) (rep : Option Repetition) (rs : List Resource) (ccs : List CRoutine)
+    (d : Dict Expr) (res : List Resource) (rep' : Option Repetition)
+    (hrp : repStep rep rs ccs d = .ok (res, rep')) (hrep : plainRepB rep = true) (hbr : ∀ r ∈ rs, binders r.value = []) :
+    repResourcesV rep rs (sigsV (evalTreeList A ρ ccs)) = some res ∧ ∀ r ∈ res, binders r.value = [] := by
+  cases rep with
+  | none =>
+    simp only [repStep, pure, Except.pure, Except.ok.injEq, Prod.mk.injEq] at hrp
+    rw [← hrp.1]; exact ⟨rfl, hbr⟩
+  | some rp =>
+    simp only [repStep] at hrp
+    obtain ⟨rs', hrs', hrp⟩ := Except.bind_ok hrp
+    obtain ⟨rp2, _, hrp⟩ := Except.bind_ok hrp
+    simp only [pure, Except.pure, Except.ok.injEq, Prod.mk.injEq] at hrp
+    simp only [plainRepB, Bool.and_eq_true, List.isEmpty_iff] at hrep
+    refine ⟨?_, by rw [← hrp.1]; exact processRepeatedResources_binders rp rs _ hrep.1 hrep.2 rs' hrs'⟩
+    simp only [repResourcesV, ← childSigs_eq A ρ ccs, hrs', exceptToOption, hrp.1]
+
 theorem plainB_node {name : String} {ty : Option String} {ips : List String} {lvs : Dict Expr} {lks : Dict (List (String × String))}
     {ps : List Port} {rs : List Resource} {cs : List (Endpoint × Endpoint)} {rep : Option Repetition} {cons : List Constraint}
     {ch : List Routine} {ord : List String}
     (h : plainB ⟨name, ty, ips, lvs, lks, ps, rs, cs, rep, cons, ch, ord⟩ = true) :
-    (∀ kv ∈ lvs, binders kv.2 = []) ∧ (∀ p ∈ ps, binders p.size = []) ∧ (∀ r ∈ rs, binders r.value = []) ∧ rep = none ∧
+    (∀ kv ∈ lvs, binders kv.2 = []) ∧ (∀ p ∈ ps, binders p.size = []) ∧ (∀ r ∈ rs, binders r.value = []) ∧ plainRepB rep = true ∧
       plainListB ch = true := by
-  simp only [plainB, Bool.and_eq_true, List.all_eq_true, List.isEmpty_iff, Option.isNone_iff_eq_none] at h
+  simp only [plainB, Bool.and_eq_true, List.all_eq_true, List.isEmpty_iff] at h
   obtain ⟨⟨⟨⟨h1, h2⟩, h3⟩, h4⟩, h5⟩ := h
   exact ⟨h1, h2, h3, h4, h5⟩
 
@@ -282,10 +420,8 @@ theorem compile_refines_denoteV (A : Alg V) (ρ : Env V) (C : Comparator) :
     obtain ⟨hbl, hbp, hbr, hrep, hpc⟩ := plainB_node hp
     have hlv := compileLocalVariables_map A ρ lvs σ lv hbl hlv0
     simp only at hupd hch hrp hc
-    subst hrep
-    simp only [repStep, pure, Except.pure, Except.ok.injEq, Prod.mk.injEq] at hrp
-    obtain ⟨hres, hrep'⟩ := hrp
-    subst hres hrep' hc
+    have hres := repStep_resources A ρ rep rs ccs _ res rep' hrp hrep hbr
+    subst hc
     have ih := compileChildren_refines_denoteV A ρ C ch cs path _ pm2 ccs hch hpc
     -- unfold the evaluator and rewrite step by step
     simp only [denoteV, hlv, Option.bind_some]
@@ -299,7 +435,9 @@ theorem compile_refines_denoteV (A : Alg V) (ρ : Env V) (C : Comparator) :
     simp only [Option.bind_some]
     have hself2 : (pm2.map (eval A ρ)).self = pm2.self.mapVal (eval A ρ) := rfl
     rw [hself2, ← childrenVariables_map, ← Dict.mapVal_merge]
-    rw [← portVals_map A ρ _ _ (portsOf_binders ps _ hbp), ← resourceVals_map A ρ _ rs hbr]
+    rw [hres.1]
+    simp only [Option.bind_some]
+    rw [← portVals_map A ρ _ _ (portsOf_binders ps _ hbp), ← resourceVals_map A ρ _ res hres.2]
     simp only [evalTree, finishNode, List.map_append]
 theorem compileChildren_refines_denoteV (A : Alg V) (ρ : Env V) (C : Comparator) :
     ∀ (ch : List Routine) (conns : List (Endpoint × Endpoint)) (path : String) (pm pm' : PTree) (ccs : List CRoutine),
